@@ -8,6 +8,7 @@ import (
 	"flag"
 	"fmt"
 	"os"
+	"os/exec"
 	"runtime/debug"
 	"sort"
 	"strconv"
@@ -198,6 +199,24 @@ func thorough(pr *Prog, id string, rs *ruleSet, l *Ledger, repo, verif string, p
 			fmt.Printf("  SENSITIVITY %s %s: %s\n", r.Status, r.ID, r.Detail)
 		}
 	}
+	// on the very tree the mutants were validated against, a silent mutant is a checker regression
+	if cnt["silent"]+cnt["broken"] > 0 && treeIsValidated(repo, verif) {
+		l.Fatal("sensitivity replay: %d mutant(s) no longer detected on the validated tree", cnt["silent"]+cnt["broken"])
+	}
+}
+
+func treeIsValidated(repo, verif string) bool {
+	b, err := os.ReadFile(verif + "/validated_tree")
+	if err != nil {
+		return false
+	}
+	want := strings.TrimSpace(string(b))
+	head, err := exec.Command("git", "-C", repo, "rev-parse", "HEAD").Output()
+	if err != nil || strings.TrimSpace(string(head)) != want {
+		return false
+	}
+	st, err := exec.Command("git", "-C", repo, "status", "--porcelain").Output()
+	return err == nil && len(strings.TrimSpace(string(st))) == 0
 }
 
 // importObligations runs another property's rules on the same program and copies the obligations selected by keep
